@@ -152,8 +152,8 @@ the working tree on every check -/
 /-- `pstep`: an insert is never withheld from the indices; an update / a delete only when the point does not
 exist (`docOf S i = none`) … -/
 example : Sema.Gen.FactsC10.insertSkips = [] ∧
-    Sema.Gen.FactsC10.updateSkips = ["err == pointstore.ErrPointDoesNotExist"] ∧
-    Sema.Gen.FactsC10.deleteSkips = ["err == pointstore.ErrPointDoesNotExist"] := by decide
+    Sema.Gen.FactsC10.updateSkips = ["b4 == pointstore.ErrPointDoesNotExist"] ∧
+    Sema.Gen.FactsC10.deleteSkips = ["b4 == pointstore.ErrPointDoesNotExist"] := by decide
 
 /-- … and the change carries the node id with (insert) the new document, (update) the stored and the merged
 document, (delete) the stored document: the `prev` / `cur` arguments of `changeOf` in `pstep` -/
@@ -163,14 +163,13 @@ example : Sema.Gen.FactsC10.insertChange = ["NodeId", "NewData"] ∧
 
 /-- `changeOf`: the dispatcher asks `getOperation` for EVERY key of the index schema with both documents, and
 leaves an index alone only on `opSkip` … -/
-example : Sema.Gen.FactsC10.dispatchRange = "propName of im.indexSchema" ∧
-    Sema.Gen.FactsC10.dispatchOperationArgs = ["dec", "propName", "change.PreviousData", "change.NewData"] ∧
-    Sema.Gen.FactsC10.dispatchSkips = ["op == opSkip"] := by decide
+example : Sema.Gen.FactsC10.dispatchRange = "a2 of v1.indexSchema" ∧
+    Sema.Gen.FactsC10.dispatchOperationArgs = ["v7", "a2", "a1.PreviousData", "a1.NewData"] ∧
+    Sema.Gen.FactsC10.dispatchSkips = ["a6 == opSkip"] := by decide
 
 /-- … which is the case "absent before and after" -/
 example : Sema.Gen.FactsC10.operationCases =
-    ["prevProp == nil && currentProp != nil => opInsert", "prevProp != nil && currentProp != nil => opUpdate",
-     "prevProp != nil && currentProp == nil => opDelete", "prevProp == nil && currentProp == nil => opSkip"] := by decide
+    ["v5 == nil && v6 != nil => opInsert", "v5 != nil && v6 != nil => opUpdate", "v5 != nil && v6 == nil => opDelete", "v5 == nil && v6 == nil => opSkip"] := by decide
 
 /-! ### non-vacuity and the defect of the unrepaired bookkeeping -/
 
